@@ -266,6 +266,49 @@ def registry():
         modifies=['value'],
         notes='a single cell needs a row; its value is the stored value at (sheet, row, column) or blank'))
 
+    # ------------------------------------------------------------ get_cells
+    def _gconst(name):
+        def f():
+            return z().Int('c02_ghost_' + name)
+        return f
+    for nm in ('t', 'r', 'c'):
+        reg.spec('g' + nm, _gconst(nm), None, 'an arbitrary but fixed sheet / row / column index (ghost constant)')
+    elem = ('is_obj({x}) and fresh_since({x}, "old") and is_int({x}.title) and is_int({x}.column) and is_int({x}.row) and '
+            'is_bool({x}._handled_identifiers) and Bv({x}._handled_identifiers) and '
+            '0 <= I({x}.title) and I({x}.title) < len(self._data) and 0 <= I({x}.row) and I({x}.row) < len(self._data[I({x}.title)]) and '
+            '0 <= I({x}.column) and I({x}.column) < len(self._data[I({x}.title)][I({x}.row)]) and '
+            '{x}.value == lookup(self._data, {x}.title, {x}.row, {x}.column)')
+    valid = ('0 <= gt() and gt() < len(self._data) and 0 <= gr() and gr() < len(self._data[gt()]) and 0 <= gc() and '
+             'gc() < len(self._data[gt()][gr()])')
+    found = 'any(I(cells[i].title) == gt() and I(cells[i].row) == gr() and I(cells[i].column) == gc() for i in range(len(cells)))'
+    frame = ('unchanged("_data", "old") and unchanged("_titles", "old")')
+    reg.add(Contract(
+        'Excel.get_cells', 'repo:excel.py:Excel.get_cells', {'self': 'obj:Excel'}, self_class='Excel',
+        fields=['_data', '_titles'], inline=['fill_cell'], callees={'handle_cell': 'handle_cell', '_fill_cell': 'Excel._fill_cell'},
+        requires=['wf_data(self._data)', 'is_dict(self._titles)'],
+        ensures={
+            'cells': 'is_list(result) and all(' + elem.format(x='result[i]') + ' for i in range(len(result)))',
+            'every_position_listed': f'implies({valid}, ' + found.replace('cells', 'result') + ')',
+        },
+        invariants={
+            0: {'cells': 'is_list(cells) and all(' + elem.format(x='cells[i]') + ' for i in range(len(cells)))',
+                'frame': frame,
+                'listed': f'implies({valid} and gt() < k0, {found})'},
+            1: {'cells': 'is_list(cells) and all(' + elem.format(x='cells[i]') + ' for i in range(len(cells)))',
+                'frame': frame,
+                'outer': 'is_int(title_number) and I(title_number) == k0 and title == self._data[k0] and 0 <= k0 and k0 < len(self._data)',
+                'listed': f'implies({valid} and (gt() < k0 or (gt() == k0 and gr() < k1)), {found})'},
+            2: {'cells': 'is_list(cells) and all(' + elem.format(x='cells[i]') + ' for i in range(len(cells)))',
+                'frame': frame,
+                'outer': 'is_int(title_number) and I(title_number) == k0 and title == self._data[k0] and 0 <= k0 and k0 < len(self._data) and '
+                         'is_int(row_number) and I(row_number) == k1 and row == title[k1] and 0 <= k1 and k1 < len(title)',
+                'listed': f'implies({valid} and (gt() < k0 or (gt() == k0 and (gr() < k1 or (gr() == k1 and gc() < k2)))), {found})'},
+        },
+        modifies=['value', 'title', 'column', 'row', '_handled_identifiers'],
+        notes='Excel.get_cells lists a freshly created, filled cell for every stored position of the workbook (every_position_listed '
+              'is stated for an arbitrary fixed position) and nothing else: each listed cell lies inside the stored data and '
+              'carries the stored value'))
+
     hd2 = ('is_bool({c}._handled_identifiers) and Bv({c}._handled_identifiers) and is_int({c}.title) and is_int({c}.column)')
     # ------------------------------------------------------------ get_matrix / get_range (dispatch)
     reg.add(Contract(
